@@ -156,7 +156,7 @@ def run_native(pkg_rel, workdir, harness, bounds, replay=None, seed=None, count=
 
 
 def run_gosym(pkg, harness, opts, bounds, outp, known_ids, extra=None, timeout=None):
-    cmd = [GOSYM, "-dir", REPO, "-pkg", pkg, "-harness", harness, "-out", outp,
+    cmd = [GOSYM, "-dir", REPO, "-overlay", HARNESS_DIR, "-pkg", pkg, "-harness", harness, "-out", outp,
            "-enc", opts.get("enc", "bv"), "-solver", opts.get("solver", "z3-new"),
            "-unwind", str(opts.get("unwind", 64)), "-workers", str(opts.get("workers", 16)),
            "-timeout", str(opts.get("timeout_ms", 20000)), "-maxpaths", str(opts.get("maxpaths", 2000000))]
